@@ -13,10 +13,10 @@ RULE = ("Each case runs a real hio Server/ServerTls with an echo loop and two Cl
         "the fake kernel (light partial-I/O noise). One fault is placed inside the exchange: an errno from the property's list "
         "(ECONNRESET EPIPE ENETRESET ENETUNREACH EHOSTUNREACH ENETDOWN EHOSTDOWN ETIMEDOUT ECONNREFUSED, or SSL EOF for TLS) at "
         "a tape-chosen call index of send / recv (plain: socket level; TLS: SSLSocket level and transport level, which lands in "
-        "do_handshake for small indices) on the client side or on the server side; or a real peer event: client close (FIN), client "
+        "do_handshake for small indices) on the client side or on the server side, either as the first sign of a connection that is really gone (both ends reset) or as a one-shot failure after which the socket stays usable; or a real peer event: client close (FIN), client "
         "close with unread data (RST), client vanishing mid-handshake, server-side remoter closed. The thorough tier additionally "
         "sweeps every (errno, op, side, call index < 6, plain/TLS) combination once. Oracle: no service() call raises; the endpoint "
-        "that met the fault is marked cutoff (server-side handshake: aborted; client-side handshake: not connected and cutoff or "
+        "that met the fault is marked cutoff - the client right after the service() call in which it fired, on the server side the very remoter whose socket failed - (server-side handshake: aborted; client-side handshake: not connected and cutoff or "
         "closed); the other connection's echo traffic completes within the drain bound. Non-trivial: the fault fired while payload "
         "bytes or handshake records of that connection were in flight. Distinct: digest of (config, fault, executed actions).")
 COMPONENTS = dict(real=["hio.core.tcp.clienting.Client/ClientTls", "hio.core.tcp.serving.Server/ServerTls/Remoter/RemoterTls", "OpenSSL engine"],
